@@ -12,6 +12,7 @@ import z3
 from vlib import circ, circgen, refsem, symeval
 from checks.common import REPLAY_PRELUDE
 
+HASH_SEEDS = {"quick": (1,), "thorough": (1, 2, 3)}  # also run (quick size) under these PYTHONHASHSEEDs
 LEVEL = "translation_validation"
 TECHNIQUE = "translation validation: z3 equivalence of the real composed circuit (real evaluator terms) with a reference netlist composition, per kept output"
 USES_STUBS = True
